@@ -197,16 +197,20 @@ def run(facts, tier):
     r5 = Rule("R6.5", "outside the interactive repl the command-line driver changes the file system (temporary file, rename, chmod) only under the `--in-place` option: every such call in the driver is control-dependent on a test of Cli.in_place", floor=3)
     from mirutil import Body, op_local
     cli = [a for a in facts.items("jaq")["adts"] if a["def"] == "jaq::cli::Cli"]
-    rm = facts.mir_fn("jaq::real_main")
-    if not cli or rm is None:
-        r5.missing_anchor("jaq::cli::Cli / jaq::real_main")
+    fields = [f["name"] for f in cli[0]["variants"][0]["fields"]] if cli else []
+    if not cli or "in_place" not in fields:
+        r5.missing_anchor("field jaq::cli::Cli.in_place")
     else:
-        fields = [f["name"] for f in cli[0]["variants"][0]["fields"]]
-        if "in_place" not in fields:
-            r5.missing_anchor("field Cli.in_place")
-        else:
-            idx = fields.index("in_place")
-            b = Body(rm)
+        idx = fields.index("in_place")
+        MUT = r"^tempfile::|^std::fs::(set_permissions|remove_file|rename|write|copy|create_dir|remove_dir|hard_link|File::create)"
+        bodies = {}
+        for crate, body in facts.all_mir():
+            if crate != "jaq" or body.get("test") or body["def"].startswith("jaq::funs::repl") or (body.get("root") or "").startswith("jaq::funs::repl"):
+                continue
+            bodies[body["def"]] = Body(body)
+
+        def flag_switches(b):
+            """switches of this body on a value derived from a read of Cli.in_place"""
             flag_locals = set()
             for bb in b.bbs:
                 for s_ in bb["st"]:
@@ -214,16 +218,41 @@ def run(facts, tier):
                         pl = s_["r"]["o"].get("c") or s_["r"]["o"].get("m")
                         if pl and b.locals[pl["l"]]["ty"].endswith("jaq::cli::Cli") and [e for e in (pl.get("pr") or []) if e != "*"] == [{"f": idx}]:
                             flag_locals.add(s_["p"]["l"])
-            sws = [i for i, bb in enumerate(b.bbs) if bb["t"]["k"] == "Switch" and op_local(bb["t"]["o"]) in flag_locals]
-            MUT = r"^tempfile::|^std::fs::(set_permissions|remove_file|rename|write|copy|create_dir|remove_dir|hard_link|File::create)"
-            sites = b.find_calls(MUT)
-            if not sws:
-                r5.violate("no-test", "real_main never branches on Cli.in_place")
-            for s_ in sites:
-                ok = any(b.controlled_by(s_, sw) for sw in sws)
-                r5.examined((Body.callee(b.bbs[s_]["t"]), b.bbs[s_]["t"]["sp"]), True, {"call": Body.callee(b.bbs[s_]["t"]), "only_under_in_place": ok})
+            return b.switches_on(flag_locals) if flag_locals else []
+
+        def use_sites(d):
+            """(caller def, block) of every direct call of `d` and of every construction of the closure `d` in the driver"""
+            out = []
+            for cd, cb in bodies.items():
+                for i, t in cb.calls():
+                    if (Body.callee(t) or "") == d or (t.get("fn") or "") == d:
+                        out.append((cd, i))
+                for i, bb in enumerate(cb.bbs):
+                    for s_ in bb["st"]:
+                        if s_.get("k") == "A" and s_["r"].get("k") == "Agg" and s_["r"].get("ak") == "Closure:" + d:
+                            out.append((cd, i))
+            return out
+
+        def conditional(d, block, depth=0, seen=()):
+            """the block of body `d` runs only under --in-place: controlled by a test of the flag in `d`, or every use of `d` is"""
+            b = bodies[d]
+            if any(b.controlled_by(block, sw) for sw in flag_switches(b)):
+                return True
+            if depth >= 4 or d in seen:
+                return False
+            us = use_sites(d)
+            return bool(us) and all(conditional(cd, i, depth + 1, seen + (d,)) for cd, i in us)
+
+        tested = [d for d, b in bodies.items() if flag_switches(b)]
+        if not tested:
+            r5.violate("no-test", "the command-line driver never branches on Cli.in_place")
+        for d, b in sorted(bodies.items()):
+            for s_ in b.find_calls(MUT):
+                c = Body.callee(b.bbs[s_]["t"])
+                ok = conditional(d, s_)
+                r5.examined((d, c, b.bbs[s_]["t"]["sp"]), True, {"in": d, "call": c, "only_under_in_place": ok})
                 if not ok:
-                    r5.violate(f"unconditional/{Body.callee(b.bbs[s_]['t'])}", f"`{Body.callee(b.bbs[s_]['t'])}` in the command-line driver is not conditional on --in-place: a plain run would create/rename/chmod files", where=b.bbs[s_]["t"]["sp"])
+                    r5.violate(f"unconditional/{c}", f"`{c}` in `{d}` is not conditional on --in-place (neither by a test of Cli.in_place in that function nor at every use of it): a plain run would create/rename/chmod files", where=b.bbs[s_]["t"]["sp"])
     rules.append(r5.finish())
 
     # R6.1x (thorough): the same reachability obligation on a second program built from the library crates
